@@ -381,10 +381,13 @@ def explore(ctx):
     maxd = 5 if ctx.thorough else 4
     trees = []
     shapes = {}
-    for _ in range(N):
+    while len(trees) < N:
         d = rng.randint(1, maxd)
         t = top(rng, d)
-        trees.append((t, render(t, 'min'), render(t, 'full'), render(t, 'rand', rng)))
+        fmin = render(t, 'min')
+        if len(fmin) > 1200:
+            continue             # exact rational evaluation of the oracle grows exponentially with the size: keep formulas readable
+        trees.append((t, fmin, render(t, 'full'), render(t, 'rand', rng)))
         shapes[d] = shapes.get(d, 0) + 1
     fixed = ['1+2*3', '(1+2)*3', '2*3+1', '8/4/2', '8/(4/2)', '8-4-2', '8-(4-2)', '-2*3', '-(2*3)', '2*-3', '2--3', '2/-3/4', '2/-3*4',
              '1+2<3+4', '1<2=TRUE', '(1<2)', '(1<2)*5', '1&2&3', '1&2=12', '-1&2', '(1+2)&3', '2*3&4', '1+2&3', '--2', '-(-2)', '((1))',
